@@ -12,6 +12,7 @@ import (
 	"path/filepath"
 	"strings"
 	"testing"
+	"time"
 )
 
 // C02: served bytes equal stored bytes for every offset and length, for every kind of served object.
@@ -202,7 +203,7 @@ func c02Geometry(bounds []int64, size int64) []geo {
 func TestC02(t *testing.T) {
 	r := NewReporter(t)
 	defer r.Done()
-	r.Rule("objects: plain files of 9 boundary sizes, sparse 4 GiB+5 file, generated image (DVD and PS3 mode; also of directories holding encrypted images and key files), redump view (adjacent key), 3k3y encrypted and decrypted views; histories OpenFile.r1 and OpenFile.r1.x.r2 with r in {ordinary, critical} x (offset,limit) from structural boundaries +-1 x lengths {0,1,2,2047,2048,2049,65536,65537,to-boundary+-1} incl. offset >= size, x in {none, Stat, OpenDir+ReadDir, OpenFile(other)+OpenFile(obj)}; all ordered pairs of objects transferred at the same time on two connections (a slow receiver interrupted by a complete transfer of the other object) x {ordinary, critical} x buffer {default, 1000}; oracle = announced size/mtime and exact bytes/length/connection state; distinct by (object, history)")
+	r.Rule("objects: plain files of 9 boundary sizes, sparse 4 GiB+5 file, generated image (DVD and PS3 mode; also of directories holding encrypted images and key files), redump view (adjacent key), 3k3y encrypted and decrypted views; histories OpenFile.r1 and OpenFile.r1.x.r2 with r in {ordinary, critical} x (offset,limit) from structural boundaries +-1 x lengths {0,1,2,2047,2048,2049,65536,65537,to-boundary+-1} incl. offset >= size, x in {none, Stat, OpenDir+ReadDir, OpenFile(other)+OpenFile(obj)}; all ordered pairs of objects transferred at the same time on two connections (a slow receiver interrupted by a complete transfer of the other object) x {ordinary, critical} x buffer {default, 1000}; a file that changes between two opens on one connection (10 kinds of change: replaced, rewritten, appended, removed, turned into a directory; with and without a telling modification time) x 4 things in between; oracle = announced size/mtime and exact bytes/length/connection state; distinct by (object, history)")
 	w, objs := buildC02World(t, r)
 	defer w.Cleanup()
 	special := map[string]*roObj{}
@@ -438,6 +439,83 @@ func TestC02(t *testing.T) {
 	// transfers that overlap in time on two connections: a slow receiver takes one byte of its answer, a second
 	// client reads another object completely, then the first takes the rest - each still gets its own object's bytes
 	c02Overlap(t, r, w, objs, &idx)
+	c02Changes(t, r, w, &idx)
+}
+
+// c02Changes: the file behind a name changes between two opens on one connection (replaced by a new file the way
+// download tools and editors do it, rewritten in place, removed, turned into a directory), with and without the
+// modification time giving it away. "After a file is opened, the announced size and time are the file's" speaks of
+// the file that is there at the open; a handle, size or position remembered from the earlier open is not it.
+func c02Changes(t *testing.T, r *Reporter, w *World, idx *int) {
+	p := filepath.Join(w.Root, "chg", "f.bin")
+	later := baseTime.Add(3 * time.Hour)
+	type chg struct {
+		name string
+		size int64 // size afterwards (-1: no file)
+		do   func()
+	}
+	changes := []chg{
+		{"replaced by a larger file", 70000, func() { replaceFileAbs(p, 70000, 9, later) }},
+		{"replaced by a smaller file", 1234, func() { replaceFileAbs(p, 1234, 9, later) }},
+		{"replaced by a file of the same size and time", 50000, func() { replaceFileAbs(p, 50000, 9, baseTime) }},
+		{"removed and created again", 50001, func() { must(os.Remove(p)); mkFileAbs(p, 50001, 8, later) }},
+		{"rewritten in place, shorter", 4097, func() { mkFileAbs(p, 4097, 7, later) }},
+		{"rewritten in place, same size and time", 50000, func() { mkFileAbs(p, 50000, 6, baseTime) }},
+		{"appended to", 50000 + 3000, func() {
+			f, err := os.OpenFile(p, os.O_WRONLY|os.O_APPEND, 0)
+			must(err)
+			f.Write(patBytes(5, 0, 3000))
+			must(f.Close())
+			must(os.Chtimes(p, later, later))
+		}},
+		{"only its time changed", 50000, func() { must(os.Chtimes(p, later, later)) }},
+		{"removed", -1, func() { must(os.Remove(p)) }},
+		{"replaced by a directory", -1, func() { must(os.Remove(p)); mkFileAbs(filepath.Join(p, "x"), 5, 1, later) }},
+	}
+	betweens := [][]Req{nil, {mkReq(opOpenFile, "/chg/CLOSEFILE")}, {mkReq(opOpenFile, "/chg/other.bin"), rdReq(0, 10)}, {mkReq(opStatFile, "/chg/f.bin")}}
+	for _, ch := range changes {
+		for bi, bw := range betweens {
+			for _, statAfter := range []bool{false, true} {
+				*idx++
+				if !r.Mine(*idx) {
+					continue
+				}
+				os.RemoveAll(filepath.Join(w.Root, "chg"))
+				mkFileAbs(p, 50000, 3, baseTime)
+				mkFileAbs(filepath.Join(w.Root, "chg", "other.bin"), 300, 4, baseTime)
+				open := mkReq(opOpenFile, "/chg/f.bin")
+				reqs := []Req{open, rdReq(0, 100), rdcReq(49990, 10), rdReq(20000, 3000)}
+				reqs = append(reqs, bw...)
+				at := len(reqs)
+				if statAfter {
+					reqs = append(reqs, mkReq(opStatFile, "/chg/f.bin"))
+				}
+				reqs = append(reqs, open)
+				if ch.size >= 0 {
+					reqs = append(reqs, rdReq(0, 200), rdReq(20000, 3000), rdReq(uint64(max(ch.size-5, 0)), 100), rdReq(49990, 100))
+					if ch.size >= 10 {
+						reqs = append(reqs, rdcReq(uint64(ch.size-10), 10), rdcReq(0, 10))
+					}
+				} else {
+					reqs = append(reqs, mkReq(opStatFile, "/chg/f.bin"), mkReq(opOpenFile, "/chg/other.bin"), rdReq(0, 300))
+				}
+				m := newModel(w.Root, false)
+				res := runSession(t, SrvOpts{Root: w.Root}, m, reqs, Delivery{Before: map[int]func(){at: ch.do}})
+				r.Transition(int64(len(res.Steps)))
+				r.Eval(1)
+				key := sprintf("changed-file|%s|%d|%v", ch.name, bi, statAfter)
+				r.State(key)
+				r.Nontrivial(key)
+				for _, st := range res.Steps {
+					r.Outcome("changed:" + st.Class)
+				}
+				if res.Why != "" {
+					r.Violation("C02:changed-file:"+res.WhySig, sprintf("/chg/f.bin %s before request %d: %s", ch.name, at, res.Why), map[string]any{"change": ch.name, "requests": reqs, "steps": res.Steps})
+				}
+			}
+		}
+	}
+	os.RemoveAll(filepath.Join(w.Root, "chg"))
 }
 
 func c02Overlap(t *testing.T, r *Reporter, w *World, objs []c02Obj, idx *int) {
